@@ -76,7 +76,9 @@ type DB struct {
 	n          int
 	log        []Commit
 	failAt     map[int]error
-	crashAfter int // 0 = never
+	gets       int           // point reads (Get) issued on the store so far
+	failGetAt  map[int]error // the k-th Get returns this error instead of reading
+	crashAfter int           // 0 = never
 	snapAll    bool
 	snapAt     map[int]bool
 	snaps      map[int]*memory.Database
@@ -215,8 +217,31 @@ func (d *DB) read(op string, key []byte) {
 func (d *DB) Has(key []byte) (bool, error) { d.read("has", key); return d.inner.Has(key) }
 func (d *DB) Get(key []byte, cb func([]byte) error) error {
 	d.read("get", key)
+	d.mu.Lock()
+	d.gets++
+	err := d.failGetAt[d.gets]
+	d.mu.Unlock()
+	if err != nil {
+		return err
+	}
 	return d.inner.Get(key, cb)
 }
+
+// FailGetAt makes the k-th point read (Get) on the store return err (ErrInjected when nil) - a transient read fault;
+// reads through snapshots and batches are not counted. Gets reports how many point reads were issued so far.
+func (d *DB) FailGetAt(k int, err error) {
+	if err == nil {
+		err = ErrInjected
+	}
+	d.mu.Lock()
+	if d.failGetAt == nil {
+		d.failGetAt = map[int]error{}
+	}
+	d.failGetAt[k] = err
+	d.mu.Unlock()
+}
+
+func (d *DB) Gets() int { d.mu.Lock(); defer d.mu.Unlock(); return d.gets }
 
 func (d *DB) NewIterator(prefix []byte, withUpperBound bool) (db.Iterator, error) {
 	d.read("iter", prefix)
@@ -235,14 +260,14 @@ func (d *DB) DeleteRange(start, end []byte) error {
 	return d.commit(KDeleteRange, 1, func() error { return d.inner.DeleteRange(start, end) })
 }
 
-func (d *DB) NewBatch() db.Batch                       { return &batch{d: d, b: d.inner.NewIndexedBatch()} }
-func (d *DB) NewBatchWithSize(int) db.Batch            { return d.NewBatch() }
-func (d *DB) NewIndexedBatch() db.IndexedBatch         { return &batch{d: d, b: d.inner.NewIndexedBatch()} }
-func (d *DB) NewIndexedBatchWithSize(int) db.IndexedBatch { return d.NewIndexedBatch() }
-func (d *DB) NewSnapshot() db.Snapshot                 { return d.inner.NewSnapshot() }
-func (d *DB) Impl() any                                { return d.inner.Impl() }
-func (d *DB) Path() string                             { return d.inner.Path() }
-func (d *DB) Close() error                             { return d.inner.Close() }
+func (d *DB) NewBatch() db.Batch                             { return &batch{d: d, b: d.inner.NewIndexedBatch()} }
+func (d *DB) NewBatchWithSize(int) db.Batch                  { return d.NewBatch() }
+func (d *DB) NewIndexedBatch() db.IndexedBatch               { return &batch{d: d, b: d.inner.NewIndexedBatch()} }
+func (d *DB) NewIndexedBatchWithSize(int) db.IndexedBatch    { return d.NewIndexedBatch() }
+func (d *DB) NewSnapshot() db.Snapshot                       { return d.inner.NewSnapshot() }
+func (d *DB) Impl() any                                      { return d.inner.Impl() }
+func (d *DB) Path() string                                   { return d.inner.Path() }
+func (d *DB) Close() error                                   { return d.inner.Close() }
 func (d *DB) WithListener(db.EventListener) db.KeyValueStore { return d }
 
 func (d *DB) Update(fn func(db.IndexedBatch) error) error {
@@ -290,10 +315,10 @@ func (b *batch) DeleteRange(s, e []byte) error {
 	b.ops++
 	return b.b.DeleteRange(s, e)
 }
-func (b *batch) Size() int                           { return b.b.Size() }
-func (b *batch) Close() error                        { return b.b.Close() }
-func (b *batch) Has(k []byte) (bool, error)          { return b.b.Has(k) }
-func (b *batch) Get(k []byte, cb func([]byte) error) error { return b.b.Get(k, cb) }
+func (b *batch) Size() int                                          { return b.b.Size() }
+func (b *batch) Close() error                                       { return b.b.Close() }
+func (b *batch) Has(k []byte) (bool, error)                         { return b.b.Has(k) }
+func (b *batch) Get(k []byte, cb func([]byte) error) error          { return b.b.Get(k, cb) }
 func (b *batch) NewIterator(p []byte, ub bool) (db.Iterator, error) { return b.b.NewIterator(p, ub) }
 func (b *batch) Write() error {
 	return b.d.commit(KBatch, b.ops, func() error { return b.b.Write() })
